@@ -18,7 +18,10 @@ Inductive arun := ARun (m : mode) (out : option (list obs)).
 
 Inductive acase :=
 | CAggs (aggs : list (Z * agg)) (order : list sortspec) (hits : list rawhit) (runs : list arun)
-| CFloat (bits num : Z) (den : positive).                       (* xq_of_bits on a finite pattern *)
+| CFloat (bits num : Z) (den : positive)                        (* xq_of_bits on a finite pattern *)
+| CMerge (aggs : list (Z * agg)) (shards : list (list rawhit * list obs)) (steps : list (list obs)).
+  (* shards: match list and finished aggregations of each shard (AllCollector); steps: the first
+     shard's bucket after Bucket.Merge of the second, of the third, ... *)
 
 Definition state_of (aggs : list (Z * agg)) (order : list sortspec) (hits : list rawhit) (m : mode) : res (list calc) :=
   match m with
@@ -35,10 +38,28 @@ Definition check_run (aggs : list (Z * agg)) (order : list sortspec) (hits : lis
   | _, _ => false
   end.
 
+Fixpoint merge_steps (aggs : list (Z * agg)) (st : list calc) (rest : list (list calc)) (steps : list (list obs)) : bool :=
+  match rest, steps with
+  | [], [] => true
+  | f :: rr, o :: os =>
+      let m := merge_subs aggs st f in
+      check_bucket aggs m o && merge_steps aggs (finish_bucket aggs m o) rr os
+  | _, _ => false
+  end.
+
+Definition check_merge (aggs : list (Z * agg)) (shards : list (list rawhit * list obs)) (steps : list (list obs)) : bool :=
+  let states := map (fun sh => (all_aggs aggs (fst sh), snd sh)) shards in
+  forallb (fun so => check_bucket aggs (fst so) (snd so)) states &&
+  match map (fun so => finish_bucket aggs (fst so) (snd so)) states with
+  | [] => match steps with [] => true | _ => false end
+  | f1 :: rest => merge_steps aggs f1 rest steps
+  end.
+
 Definition check (c : acase) : bool :=
   match c with
   | CAggs aggs order hits runs => forallb (check_run aggs order hits) runs
   | CFloat bits num den => xq_eqb (xq_of_bits bits) (XFin (num # den))
+  | CMerge aggs shards steps => check_merge aggs shards steps
   end.
 
 Definition mismatches (l : list acase) : list nat := failing check l.
